@@ -735,6 +735,8 @@ def plan_export(run, prop, tier):
           dict(profile="fan", n=16, cap=32, steps=600, seed=s * 100 + 90, window=12, observe=20, odd=1),
           # one path of 140 vertices through ten groups (inspect walks 139 edges deep; three-digit ids in every printer)
           dict(profile="deepchain", n=1, cap=256, steps=0, seed=s * 100 + 91, window=8),
+          # labels holding a quote and a backslash (DOT strings escape both; XML, Debug and v_print take them as they are)
+          dict(profile="observe", n=4, cap=16, steps=900, seed=s * 100 + 94, window=6, odd=10),
           # the printers on data of 4 KiB .. 1 MiB (original and copy)
           dict(profile="bigdata", n=2, cap=16, steps=0, seed=s * 100 + 93, window=8)]
     if tier == "thorough":
